@@ -23,16 +23,21 @@ def _work(task):
             # second domain: a closed CFG decorated with AST payloads (src is the successor table)
             r = astgraph.pipeline_graph(src)
             recs.append({"outcome": r["outcome"], "stage": r["stage"], "exc": r["exc"], "census": r["census"] or {}, "src": json.dumps(src), "feats": feats,
-                         "flat": r["flat"], "skeleton": r["skeleton"], "skexc": r["skexc"]})
+                         "flat": r["flat"], "skeleton": r["skeleton"], "skexc": r["skexc"], "H": r["H"], "root": r["root"]})
             continue
         r = srcpipe.pipeline(src)
         recs.append({"outcome": r["outcome"], "stage": r["stage"], "exc": r["exc"], "census": r["census"] or {}, "src": src, "feats": feats,
-                     "flat": r.get("flat", {}), "skeleton": r.get("skeleton", []), "skexc": r.get("skeleton_exc", "")})
+                     "flat": r.get("flat", {}), "skeleton": r.get("skeleton", []), "skexc": r.get("skeleton_exc", ""), "H": r.get("H", {}), "root": r.get("root", "")})
     with open(path, "w") as f:
         json.dump([{k: r[k] for k in ("outcome", "stage", "census")} for r in recs], f, separators=(",", ":"))
     sk = [{"flat": r["flat"], "code": r["skeleton"]} for r in recs if r["outcome"] == "ok" and not r["skexc"]]
     with open(path.replace("census-", "skeleton-"), "w") as f:
         json.dump(sk, f, separators=(",", ":"))
+    # cases for the transcription of the code generator (CodegenImpl.tla): recorded hierarchy + real output (or refusal)
+    im = [{"flat": r["flat"], "code": r["skeleton"], "H": r["H"], "root": r["root"], "refused": r["outcome"] == "refused"}
+          for r in recs if r["H"] and not r["skexc"] and (r["outcome"] == "ok" or (r["outcome"] == "refused" and r["stage"] == "scfg2ast"))]
+    with open(path.replace("census-", "impl-"), "w") as f:
+        json.dump(im, f, separators=(",", ":"))
     return [{k: r[k] for k in ("outcome", "stage", "exc", "src", "feats")} | {"nasg": len((r["census"] or {}).get("exp_asg", [])),
                                                                             "outside": ",".join((r["census"] or {}).get("outside", [])), "skexc": r["skexc"]} for r in recs]
 
@@ -75,8 +80,27 @@ def main(argv):
                                   signature={"clause": clause.split("/")[0], "exc": m["exc"], "outside": m["outside"]})
         # all decision paths, skeleton level (Skeleton.tla): product of the flat graph with the generated code
         skres = tlc.run_shards("Skeleton", "INIT Init\nNEXT Next\nINVARIANT SamePaths\nCHECK_DEADLOCK FALSE\n",
-                               [{"CASES": t[1].replace("census-", "skeleton-")} for t in tasks], jobs=args.jobs, workers=1, timeout=3000)
+                               [{"CASES": t[1].replace("census-", "skeleton-"), "MODE": "real"} for t in tasks], jobs=args.jobs, workers=1, timeout=3000)
         tlc.require_ok(skres, "Skeleton")
+        # the transcription of the code generator: conformance with the real output and all paths of ITS output (design level)
+        imres = tlc.run_shards("Skeleton", "INIT Init\nNEXT Next\nINVARIANT SamePaths\nINVARIANT NoDrift\nCHECK_DEADLOCK FALSE\n",
+                               [{"CASES": t[1].replace("census-", "impl-"), "MODE": "impl"} for t in tasks], jobs=args.jobs, workers=1, timeout=3000, heap="3g")
+        tlc.require_ok(imres, "Skeleton (CodegenImpl)")
+        cg = {"states": 0, "drift": 0, "design_failures": 0}
+        for tr in imres:
+            cg["states"] += tr.distinct
+            states += tr.distinct
+            gen += tr.generated
+            for v in tr.violations:
+                if v["inv"] == "NoDrift":
+                    cg["drift"] += 1
+                else:
+                    cg["design_failures"] += 1
+        if cg["drift"]:
+            rep.add_drift({"codegen_transcription_differs_from_real_output_on": cg["drift"]})
+        if cg["design_failures"]:
+            print("DESIGN: property=C10 the transcription of the code generator (CodegenImpl.tla) loses a path on %d cases" % cg["design_failures"])
+        rep.coverage["codegen_model"] = dict(cg, module="CodegenImpl.tla + Skeleton.tla (MODE=impl)")
         sk_states = 0
         for meta, tr in zip(metas, skres):
             sk_states += tr.distinct
